@@ -66,7 +66,7 @@ MCAdd ==
 
 MCDel ==
     /\ "del_parts" \in Ops /\ P > 0
-    /\ \E k \in {1, P + 1} :
+    /\ \E k \in {1, 2, P + 1} :
         /\ RemovePartitions(k)
         /\ Layout([i \in 1..P' |-> segs[i]], FALSE)
         /\ fill' = [i \in 1..P' |-> fill[i]]
